@@ -381,105 +381,11 @@ func runC04(c *Ctx) {
 	}
 
 	// ---- R-C04-TRANSFER
-	c.Group("R-C04-TRANSFER", "lockedMap.Set", func() {
-		fn := P.Fn("ristretto", "lockedMap", "Set")
-		L.Analysed(fname(fn))
-		tb := newTB(fn)
-		paths, ok := explore(fn, tb, ExploreOpts{Start: entryPos(fn)})
-		if !ok {
-			L.Undecided("R-C04-TRANSFER", "lockedMap.Set", "too many paths", fn.Pos())
-			return
-		}
-		good := true
-		n := 0
-		for _, p := range paths {
-			ret, isRet := p.End.(*ssa.Return)
-			if !isRet {
-				continue
-			}
-			n++
-			rv := returnValues(ret)
-			if len(rv) != 1 {
-				L.Fail("R-C04-TRANSFER", "lockedMap.Set", "store.Set does not report whether it stored the item: a refused item is silently dropped (finding F2)", fn.Pos())
-				return
-			}
-			stored := p.Has(func(in ssa.Instruction) bool {
-				mu, ok := in.(*ssa.MapUpdate)
-				return ok && Match(dataPat, tb.T(mu.Map), nil)
-			})
-			rt := tb.T(rv[0]).String()
-			if (rt == "c[true]") != stored || (rt != "c[true]" && rt != "c[false]") {
-				good = false
-				L.Fail("R-C04-TRANSFER", "lockedMap.Set", fmt.Sprintf("returns %s on a path where stored=%v (block path %s)", rt, stored, p.BlockPath()), ret.Pos())
-			}
-		}
-		if good && n > 0 {
-			L.Ok("R-C04-TRANSFER", "lockedMap.Set", fmt.Sprintf("returns true exactly on the storing paths (%d paths)", n), fn.Pos())
-		}
-	})
-	c.Group("R-C04-TRANSFER", "shardedMap.Set", func() {
-		fn := P.Fn("ristretto", "shardedMap", "Set")
-		tb := newTB(fn)
-		good, n := true, 0
-		for _, r := range returnsOf(fn) {
-			rv := returnValues(r)
-			if len(rv) != 1 {
-				L.Fail("R-C04-TRANSFER", "shardedMap.Set", "does not forward lockedMap.Set's result", r.Pos())
-				return
-			}
-			t := tb.T(rv[0])
-			if Match("call[lockedMap.Set](_,p[1])", t, nil) {
-				n++
-			} else if t.String() != "c[false]" {
-				good = false
-				L.Fail("R-C04-TRANSFER", "shardedMap.Set", "returns "+t.String()+" instead of the shard's verdict", r.Pos())
-			}
-		}
-		if good {
-			L.Check(n > 0, "R-C04-TRANSFER", "shardedMap.Set", "forwards the shard's verdict (false for a nil item)", "never returns lockedMap.Set's result", fn.Pos())
-		}
-	})
+	transferRule(c, "R-C04-TRANSFER")
 
 	// ---- R-C04-CLEAR
 	clearDrainRule(c, "R-C04-CLEAR")
-	c.Group("R-C04-CLEAR", "lockedMap.Clear", func() {
-		fn := P.Fn("ristretto", "lockedMap", "Clear")
-		L.Analysed(fname(fn))
-		tb := newTB(fn)
-		var next *ssa.Next
-		eachInstr(fn, func(in ssa.Instruction) {
-			if n, ok := in.(*ssa.Next); ok && Match("next(range("+dataPat+"))", tb.T(n), nil) {
-				next = n
-			}
-		})
-		if next == nil {
-			L.Fail("R-C04-CLEAR", "lockedMap.Clear", "does not range over m.data", fn.Pos())
-			return
-		}
-		paths, _ := explore(fn, tb, ExploreOpts{Start: after(next), StopAt: isInstr(next)})
-		good, n := true, 0
-		for _, p := range paths {
-			if p.CondHeld(tb, "ext[0]("+tb.T(next).String()+")", nil) != 1 {
-				continue // loop exit
-			}
-			n++
-			if p.End != ssa.Instruction(next) {
-				good = false
-				L.Fail("R-C04-CLEAR", "lockedMap.Clear", "the drain loop is left before all entries are reported", next.Pos())
-			}
-			hands := handOversOnPath(p, tb)
-			if len(hands) != 1 || !Match("call[dyn](p[1],_)", hands[0], nil) {
-				good = false
-				L.Fail("R-C04-CLEAR", "lockedMap.Clear", fmt.Sprintf("an entry is reported %d time(s) per iteration, want exactly once through the onEvict parameter", len(hands)), next.Pos())
-			}
-		}
-		// the loop is entered whenever onEvict != nil
-		if good && n > 0 {
-			L.Ok("R-C04-CLEAR", "lockedMap.Clear", "each ranged entry reported exactly once", next.Pos())
-		} else if n == 0 {
-			L.Undecided("R-C04-CLEAR", "lockedMap.Clear", "no loop iteration path found", next.Pos())
-		}
-	})
+	lockedMapClearRule(c, "R-C04-CLEAR")
 	c.Group("R-C04-CLEAR", "shardedMap.Clear", func() {
 		fn := P.Fn("ristretto", "shardedMap", "Clear")
 		tb := newTB(fn)
@@ -617,9 +523,8 @@ func runC04(c *Ctx) {
 			}
 		}
 	})
-	c.Group("R-C04-WRAP", "Cache.processItems$2", func() {
-		pi := P.Fn("ristretto", "Cache", "processItems")
-		w := P.Anon(pi, 1)
+	c.Group("R-C04-WRAP", "Cache.processItems#onEvict-wrapper", func() {
+		w := P.ApplierOnEvict()
 		tb := newTB(w)
 		paths, _ := explore(w, tb, ExploreOpts{Start: entryPos(w)})
 		good := len(paths) > 0
@@ -628,11 +533,11 @@ func runC04(c *Ctx) {
 			nonNil := p.CondHeld(tb, "ne(fld[onEvict](_),c[nil])", nil)
 			if !(n == 1 || (nonNil == -1 && n == 0)) || len(handOversOnPath(p, tb)) != n {
 				good = false
-				L.Fail("R-C04-WRAP", "Cache.processItems$2", fmt.Sprintf("the applier's onEvict forwards to c.onEvict %d time(s) on a path (block path %s)", n, p.BlockPath()), w.Pos())
+				L.Fail("R-C04-WRAP", "Cache.processItems#onEvict-wrapper", fmt.Sprintf("the applier's onEvict forwards to c.onEvict %d time(s) on a path (block path %s)", n, p.BlockPath()), w.Pos())
 			}
 		}
 		if good {
-			L.Ok("R-C04-WRAP", "Cache.processItems$2", "forwards its item to c.onEvict exactly once on every path where it is set", w.Pos())
+			L.Ok("R-C04-WRAP", "Cache.processItems#onEvict-wrapper", "forwards its item to c.onEvict exactly once on every path where it is set", w.Pos())
 		}
 	})
 
@@ -781,6 +686,115 @@ func clearDrainRule(c *Ctx, ruleID string) {
 			L.Fail(ruleID, "Cache.Clear#storeclear", "a path through Clear returns without storedItems.Clear(c.onEvict) (block path "+pathString(path)+"): resident values are never released", instrPos(badRet))
 		} else {
 			L.Ok(ruleID, "Cache.Clear#storeclear", "storedItems.Clear(c.onEvict) on every path", firstSend.Pos())
+		}
+	})
+}
+
+// transferRule: store.Set reports whether it stored — true exactly on the paths that put
+// i.Value into the map — and shardedMap.Set forwards that verdict (shared by C04 and C02).
+func transferRule(c *Ctx, ruleID string) {
+	L, P := c.L, c.P
+	c.Group(ruleID, "lockedMap.Set", func() {
+		fn := P.Fn("ristretto", "lockedMap", "Set")
+		L.Analysed(fname(fn))
+		tb := newTB(fn)
+		paths, ok := explore(fn, tb, ExploreOpts{Start: entryPos(fn)})
+		if !ok {
+			L.Undecided(ruleID, "lockedMap.Set", "too many paths", fn.Pos())
+			return
+		}
+		good := true
+		n := 0
+		for _, p := range paths {
+			ret, isRet := p.End.(*ssa.Return)
+			if !isRet {
+				continue
+			}
+			n++
+			rv := returnValues(ret)
+			if len(rv) != 1 {
+				L.Fail(ruleID, "lockedMap.Set", "store.Set does not report whether it stored the item: a refused item is silently dropped (finding F2)", fn.Pos())
+				return
+			}
+			stored := p.Has(func(in ssa.Instruction) bool {
+				mu, ok := in.(*ssa.MapUpdate)
+				return ok && Match(dataPat, tb.T(mu.Map), nil)
+			})
+			rt := tb.T(rv[0]).String()
+			if (rt == "c[true]") != stored || (rt != "c[true]" && rt != "c[false]") {
+				good = false
+				L.Fail(ruleID, "lockedMap.Set", fmt.Sprintf("returns %s on a path where stored=%v (block path %s)", rt, stored, p.BlockPath()), ret.Pos())
+			}
+		}
+		if good && n > 0 {
+			L.Ok(ruleID, "lockedMap.Set", fmt.Sprintf("returns true exactly on the storing paths (%d paths)", n), fn.Pos())
+		}
+	})
+	c.Group(ruleID, "shardedMap.Set", func() {
+		fn := P.Fn("ristretto", "shardedMap", "Set")
+		tb := newTB(fn)
+		good, n := true, 0
+		for _, r := range returnsOf(fn) {
+			rv := returnValues(r)
+			if len(rv) != 1 {
+				L.Fail(ruleID, "shardedMap.Set", "does not forward lockedMap.Set's result", r.Pos())
+				return
+			}
+			t := tb.T(rv[0])
+			if Match("call[lockedMap.Set](_,p[1])", t, nil) {
+				n++
+			} else if t.String() != "c[false]" {
+				good = false
+				L.Fail(ruleID, "shardedMap.Set", "returns "+t.String()+" instead of the shard's verdict", r.Pos())
+			}
+		}
+		if good {
+			L.Check(n > 0, ruleID, "shardedMap.Set", "forwards the shard's verdict (false for a nil item)", "never returns lockedMap.Set's result", fn.Pos())
+		}
+	})
+}
+
+// lockedMapClearRule: lockedMap.Clear reports every ranged entry exactly once through its onEvict
+// parameter — unconditionally: no entry (expired or not) is dropped without being released.
+// Shared by C04 and C15.
+func lockedMapClearRule(c *Ctx, ruleID string) {
+	L, P := c.L, c.P
+	c.Group(ruleID, "lockedMap.Clear", func() {
+		fn := P.Fn("ristretto", "lockedMap", "Clear")
+		L.Analysed(fname(fn))
+		tb := newTB(fn)
+		var next *ssa.Next
+		eachInstr(fn, func(in ssa.Instruction) {
+			if n, ok := in.(*ssa.Next); ok && Match("next(range("+dataPat+"))", tb.T(n), nil) {
+				next = n
+			}
+		})
+		if next == nil {
+			L.Fail(ruleID, "lockedMap.Clear", "does not range over m.data", fn.Pos())
+			return
+		}
+		paths, _ := explore(fn, tb, ExploreOpts{Start: after(next), StopAt: isInstr(next)})
+		good, n := true, 0
+		for _, p := range paths {
+			if p.CondHeld(tb, "ext[0]("+tb.T(next).String()+")", nil) != 1 {
+				continue // loop exit
+			}
+			n++
+			if p.End != ssa.Instruction(next) {
+				good = false
+				L.Fail(ruleID, "lockedMap.Clear", "the drain loop is left before all entries are reported", next.Pos())
+			}
+			hands := handOversOnPath(p, tb)
+			if len(hands) != 1 || !Match("call[dyn](p[1],_)", hands[0], nil) {
+				good = false
+				L.Fail(ruleID, "lockedMap.Clear", fmt.Sprintf("an entry is reported %d time(s) per iteration, want exactly once through the onEvict parameter", len(hands)), next.Pos())
+			}
+		}
+		// the loop is entered whenever onEvict != nil
+		if good && n > 0 {
+			L.Ok(ruleID, "lockedMap.Clear", "each ranged entry reported exactly once", next.Pos())
+		} else if n == 0 {
+			L.Undecided(ruleID, "lockedMap.Clear", "no loop iteration path found", next.Pos())
 		}
 	})
 }
